@@ -172,7 +172,7 @@ META = {
         "time, and an evaluation time is matched (|t/D-e|<=1e-10) by exactly one grid time."
     ),
     "outside": [
-        "durations above 10000 ns, dt below 0.1 ns; more than 2 evaluation times; evaluation times closer than 1e-6",
+        "durations above 10000 ns, dt below 0.1 ns; more than 3 evaluation times (quick: 2); evaluation times closer than 1e-6",
         "n_trajectories / repetition count (C34)",
         "a `sat` in the over-approximation is only a candidate: it is reported as a violation only if it replays on real doubles",
         "overflow/underflow/subnormals (impossible in the stated ranges)",
@@ -188,7 +188,7 @@ def cases(tier):
     out = []
     grid = [(0, 1, False), (1, 1, False), (1, 1, True), (0, 2, False), (2, 1, "mixed")]
     if tier != "quick":
-        grid += [(2, 1, False), (1, 2, False), (2, 1, True), (1, 1, "mixed")]
+        grid += [(2, 1, False), (1, 2, False), (2, 1, True), (1, 1, "mixed"), (3, 1, "mixed"), (2, 2, False)]
     for ne, ni, dflt in grid:
         out.append(
             Case(
